@@ -304,8 +304,21 @@ restart:
     if (xcm_tp_socket_init(conn_s, server_s) < 0)
 	goto err_destroy;
 
+    /* A "xcm.blocking" attribute in the map must not make
+       xcm_set_blocking() finish outstanding work on a connection the
+       transport has not accepted yet (there is none, and the
+       transports assert on it): the mode is switched from blocking,
+       and the server's mode restored if the map does not name one. */
+    bool mode_given =
+	attrs != NULL && xcm_attr_map_exists(attrs, XCM_ATTR_XCM_BLOCKING);
+
+    conn_s->is_blocking = true;
+
     if (set_attrs(conn_s, server_s, attrs) < 0)
 	goto err_close;
+
+    if (!mode_given)
+	conn_s->is_blocking = is_blocking;
 
     if (xcm_tp_socket_accept(conn_s, server_s) < 0) {
 	if (is_blocking && errno == EAGAIN) {
